@@ -1,4 +1,7 @@
 import SiaModel.Ledger.Model
+import SiaProofs.Lemmas.LedgerC06Store
+import SiaProofs.Lemmas.LedgerC06Genuine
+import SiaProofs.Props.C08
 /-!
 # C06 — revert is the exact inverse of apply
 
@@ -32,5 +35,161 @@ theorem c06_revert_reports_same (L : Ledger) (b : Block) (L' : Ledger) (ms : Mid
 theorem c06_reapply_identical (L : Ledger) (b : Block) (r₁ r₂ : VM (Ledger × Mid))
     (h₁ : applyBlock L b = r₁) (h₂ : applyBlock L b = r₂) : r₁ = r₂ := by
   rw [← h₁, ← h₂]
+
+-- ================================================================= the client store
+
+/-- `c06_store_tracks_ledger` (general form): for a mid-state with the index invariant over a ledger
+with unique ids whose non-created diffs carry ledger elements, applying its diffs to the store of
+the ledger gives the store of the committed ledger. -/
+theorem store_tracks_ledger_of (ms : Mid) (bid : Id) (hJ : MidJ ms) (hL : LedgerIds ms.base)
+    (hG : Genuine ms.base ms) : applyStore (Store.ofLedger ms.base) ms = Store.ofLedger (ms.commit bid) := by
+  have hsc : (applyStore (Store.ofLedger ms.base) ms).sc = (Store.ofLedger (ms.commit bid)).sc := by
+    show _ = Map.ofList (fun e : ScElem => e.id) (List.filter _ _ ++ List.map _ (List.filter _ _))
+    apply tracks_generic (fun e : ScElem => e.id) (fun d : ScDiff => d.e.id) _ _ _ _ _ _ hJ.sc.nodup
+    · intro e; simp
+    · intro d _; rfl
+    · intro d hd
+      unfold ScDiff.applyAct
+      cases hs : d.spent <;> cases hc : d.created <;> simp [Act.at]
+      exact ofList_mem _ _ hL.sc _ (hG.sc d hd hc)
+  have hsf : (applyStore (Store.ofLedger ms.base) ms).sf = (Store.ofLedger (ms.commit bid)).sf := by
+    show _ = Map.ofList (fun e : SfElem => e.id) (List.filter _ _ ++ List.map _ (List.filter _ _))
+    apply tracks_generic (fun e : SfElem => e.id) (fun d : SfDiff => d.e.id) _ _ _ _ _ _ hJ.sf.nodup
+    · intro e; simp
+    · intro d _; rfl
+    · intro d hd
+      unfold SfDiff.applyAct
+      cases hs : d.spent <;> cases hc : d.created <;> simp [Act.at]
+      exact ofList_mem _ _ hL.sf _ (hG.sf d hd hc)
+  have hfc1 : (applyStore (Store.ofLedger ms.base) ms).fc1 = (Store.ofLedger (ms.commit bid)).fc1 := by
+    show _ = Map.ofList (fun e : Fc1Elem => e.id) (List.filter _ _ ++ List.map _ (List.filter _ _))
+    apply tracks_generic (fun e : Fc1Elem => e.id) (fun d : Fc1Diff => d.e.id) _ _ _ _ _ _ hJ.fc1.nodup
+    · intro e; simp
+    · intro d _; exact Fc1Diff.current_id d
+    · intro d hd
+      unfold Fc1Diff.applyAct Fc1Diff.current
+      cases hs : d.resolved <;> cases hr : d.revision <;> cases hc : d.created <;> simp [Act.at]
+      exact ofList_mem _ _ hL.fc1 _ (hG.fc1 d hd hc)
+  have hfc2 : (applyStore (Store.ofLedger ms.base) ms).fc2 = (Store.ofLedger (ms.commit bid)).fc2 := by
+    show _ = Map.ofList (fun e : Fc2Elem => e.id) (List.filter _ _ ++ List.map _ (List.filter _ _))
+    apply tracks_generic (fun e : Fc2Elem => e.id) (fun d : Fc2Diff => d.e.id) _ _ _ _ _ _ hJ.fc2.nodup
+    · intro e; simp
+    · intro d _; cases d.revision <;> rfl
+    · intro d hd
+      unfold Fc2Diff.applyAct
+      cases hs : d.resolution <;> cases hr : d.revision <;> cases hc : d.created <;> simp [Act.at]
+      exact ofList_mem _ _ hL.fc2 _ (hG.fc2 d hd hc)
+  unfold applyStore Store.ofLedger at *
+  simp only [Store.mk.injEq]
+  exact ⟨hsc, hsf, hfc1, hfc2⟩
+
+/-- `c06_store_inverse` (general form): reverting with the reversed diff lists undoes applying them -/
+theorem store_inverse_of (ms : Mid) (hJ : MidJ ms) (hL : LedgerIds ms.base)
+    (hG : Genuine ms.base ms) (hF : FreshCreated ms.base ms) :
+    revertStore (applyStore (Store.ofLedger ms.base) ms) ms.sces.reverse ms.sfes.reverse ms.fces.reverse ms.v2fces.reverse =
+      Store.ofLedger ms.base := by
+  unfold revertStore applyStore Store.ofLedger
+  simp only [Store.mk.injEq]
+  refine ⟨?_, ?_, ?_, ?_⟩
+  · apply inverse_generic (fun d : ScDiff => d.e.id) _ _ _ _ hJ.sc.nodup
+    intro d hd
+    unfold ScDiff.applyAct ScDiff.revertAct
+    cases hc : d.created
+    · cases hs : d.spent <;> simp [Act.at]
+      exact (ofList_mem _ _ hL.sc _ (hG.sc d hd hc)).symm
+    · have : Map.ofList (fun e : ScElem => e.id) ms.base.sc d.e.id = none :=
+        ofList_not_mem _ _ _ (hF.sc d hd hc)
+      cases hs : d.spent <;> simp [Act.at, this]
+  · apply inverse_generic (fun d : SfDiff => d.e.id) _ _ _ _ hJ.sf.nodup
+    intro d hd
+    unfold SfDiff.applyAct SfDiff.revertAct
+    cases hc : d.created
+    · cases hs : d.spent <;> simp [Act.at]
+      exact (ofList_mem _ _ hL.sf _ (hG.sf d hd hc)).symm
+    · have : Map.ofList (fun e : SfElem => e.id) ms.base.sf d.e.id = none :=
+        ofList_not_mem _ _ _ (hF.sf d hd hc)
+      cases hs : d.spent <;> simp [Act.at, this]
+  · apply inverse_generic (fun d : Fc1Diff => d.e.id) _ _ _ _ hJ.fc1.nodup
+    intro d hd
+    unfold Fc1Diff.revertAct
+    cases hc : d.created
+    · simp [Act.at]
+      exact (ofList_mem _ _ hL.fc1 _ (hG.fc1 d hd hc)).symm
+    · simp [Act.at]
+      exact (ofList_not_mem _ _ _ (hF.fc1 d hd hc)).symm
+  · apply inverse_generic (fun d : Fc2Diff => d.e.id) _ _ _ _ hJ.fc2.nodup
+    intro d hd
+    unfold Fc2Diff.revertAct
+    cases hc : d.created
+    · simp [Act.at]
+      exact (ofList_mem _ _ hL.fc2 _ (hG.fc2 d hd hc)).symm
+    · simp [Act.at]
+      exact (ofList_not_mem _ _ _ (hF.fc2 d hd hc)).symm
+
+/-- For a validated block applied to a ledger with unique element ids: a client store in sync with
+the ledger, updated with the diffs the apply update reports (spent ⇒ delete, created ⇒ insert;
+contracts: resolved ⇒ delete, revised ⇒ store the revision, created ⇒ insert), is in sync with the
+new ledger — whatever mix of creation, spending, revision, resolution and expiry the block contains. -/
+theorem c06_store_tracks_ledger (L L' : Ledger) (b : Block) (pid : Id) (ms0 ms : Mid) (hL : LedgerIds L)
+    (hv : validateBlock L b pid = .ok ms0) (ha : applyBlock L b = .ok (L', ms)) :
+    applyStore (Store.ofLedger L) ms = Store.ofLedger L' := by
+  unfold applyBlock at ha
+  obtain ⟨m, hm, ha⟩ := bind_ok_iff.1 ha
+  simp at ha
+  obtain ⟨rfl, rfl⟩ := ha
+  have hb := midApplyBlock_base hm
+  have := store_tracks_ledger_of ms b.blockId (midApplyBlock_J hm) (by rw [hb]; exact hL)
+    (by rw [hb]; exact genuine_of_validated hv hm)
+  rw [hb] at this
+  exact this
+
+/-- … and feeding the same diff lists reversed (what `RevertBlock` reports, `c06_revert_reports_same`)
+to the store's revert (created ⇒ delete, otherwise restore the diff's element) gives back exactly the
+store before the block — provided the ids the block creates are not ids of live elements.  Covers
+creation+spend in one block, created+revised, revised+resolved (kept true by the pre-block element
+rule of `resolveFc1`, see `c06_resolve_keeps_preblock_element`) and expiring v1 contracts. -/
+theorem c06_store_inverse (L L' : Ledger) (b : Block) (pid : Id) (ms0 ms : Mid) (hL : LedgerIds L)
+    (hv : validateBlock L b pid = .ok ms0) (ha : applyBlock L b = .ok (L', ms)) (hF : FreshCreated L ms) :
+    revertStore (applyStore (Store.ofLedger L) ms) ms.sces.reverse ms.sfes.reverse ms.fces.reverse ms.v2fces.reverse =
+      Store.ofLedger L := by
+  unfold applyBlock at ha
+  obtain ⟨m, hm, ha⟩ := bind_ok_iff.1 ha
+  simp at ha
+  obtain ⟨rfl, rfl⟩ := ha
+  have hb := midApplyBlock_base hm
+  have := store_inverse_of ms (midApplyBlock_J hm) (by rw [hb]; exact hL)
+    (by rw [hb]; exact genuine_of_validated hv hm) (by rw [hb]; exact hF)
+  rw [hb] at this
+  exact this
+
+/-- Regression guard for the `resolveFileContractElement` fix: when a v1 contract (not yet in the
+block's diffs) is revised and then resolved in the same block — the resolution being handed the
+*revised* element, as the lookup returns it — the diff still records the element the revision was
+applied to, together with the revision and the resolution. -/
+theorem c06_resolve_keeps_preblock_element (s : Mid) (e0 e1 : Fc1Elem) (rev : Fc1) (v : Bool)
+    (hfresh : s.lookup e0.id = none) (hid : e1.id = e0.id) :
+    ((s.reviseFc1 e0 rev).resolveFc1 e1 v).fc1Diff? e0.id =
+      some { e := e0, created := false, revision := some { rev with payout := e0.fc.payout }, resolved := true, valid := v } := by
+  have h1 : s.reviseFc1 e0 rev =
+      { s with fces := s.fces ++ [{ e := e0, revision := some { rev with payout := e0.fc.payout } }],
+               elements := s.elements ++ [(e0.id, s.fces.length)] } := by
+    unfold Mid.reviseFc1 Mid.putFc1
+    rw [hfresh]; rfl
+  have hl : (s.reviseFc1 e0 rev).lookup e0.id = some s.fces.length := by
+    rw [h1]; exact lookup_append_none _ hfresh
+  unfold Mid.resolveFc1 Mid.fc1Diff? Mid.putFc1
+  rw [hid, hl]
+  simp only [Mid.lookup] at hl ⊢
+  rw [hl]
+  rw [h1]
+  simp [listSet, List.getD]
+
+-- the hypotheses are satisfiable: an accepted block over a ledger with unique ids
+def exBlock : Block :=
+  { txns1 := [], v2 := some (15, true, [C08.tRev2, C08.tSpend2 C08.Ex.e0]), payouts := [(900, { value := 30010, addr := 5 })], foundationOutId := 901, expiring := [], headerOk := true, blockId := 1015, maxWeight := 1000 }
+
+example : (validateBlock (C08.Ex.L 15) exBlock 1014).toOption.isSome = true := by decide
+example : (applyBlock (C08.Ex.L 15) exBlock).toOption.isSome = true := by decide
+example : LedgerIds (C08.Ex.L 15) := ⟨by decide, by decide, by decide, by decide⟩
 
 end C06
